@@ -244,6 +244,9 @@ func (h *H) Shrink(cc core.Cfg) []core.Cfg {
 			}
 			switch op.Kind {
 			case "partial":
+				if open[op.File] {
+					continue // the complete that separated two partial writes was dropped
+				}
 				open[op.File] = true
 			case "complete":
 				if !open[op.File] {
@@ -258,8 +261,8 @@ func (h *H) Shrink(cc core.Cfg) []core.Cfg {
 			}
 			ops = append(ops, op)
 		}
-		for f, o := range open {
-			if o {
+		for f := 0; f < c.Files; f++ {
+			if open[f] {
 				ops = append(ops, WOp{Kind: "complete", File: f})
 			}
 		}
@@ -306,6 +309,8 @@ type lineInfo struct {
 	writtenAt     time.Duration
 	complete      bool
 	delivered     int
+	committed     int // commits that reached the input plugin
+	read          int // times the input accepted it (PassEvent true)
 	text          string
 	truncatedAway bool
 }
@@ -360,6 +365,9 @@ func (r *run) writer() {
 		p := logPath(op.File)
 		switch op.Kind {
 		case "line", "partial":
+			if r.pend[op.File] != nil {
+				continue // an application does not start a line in the middle of another one
+			}
 			l := &lineInfo{id: op.ID, stream: op.Stream, file: op.File}
 			l.text = r.lineText(l, op.Pad)
 			r.lines[l.id] = l
@@ -415,7 +423,9 @@ func (r *run) writer() {
 				streamsOfFile[l.stream] = true
 				if l.delivered == 0 {
 					l.truncatedAway = true // written before the truncation: not promised any more
-					inflight[l.stream] = true
+				}
+				if l.read > 0 && l.committed == 0 {
+					inflight[l.stream] = true // read, and its commit, when it comes, comes after the truncation
 				}
 			}
 			if len(inflight) >= 1 && len(streamsOfFile) >= 2 {
@@ -516,6 +526,11 @@ func (w *inWrap) PassEvent(e *pipeline.Event) bool {
 	}
 	if ok {
 		w.r.passed[k] = true
+		if n := e.Root.Dig("id"); n != nil {
+			if l := w.r.lines[n.AsInt()]; l != nil {
+				l.read++
+			}
+		}
 	}
 	if debug {
 		fmt.Printf("[%v step %d] PassEvent src=%d %s off=%d stream=%s -> %v  %s\n", simrt.SimNow(), simrt.Steps(), e.SourceID, e.SourceName, e.Offset, pipeline.VerifEventStream(e), ok, e.Root.EncodeToString())
@@ -527,6 +542,11 @@ func (w *inWrap) Commit(e *pipeline.Event) {
 		fmt.Printf("[%v step %d] Commit src=%d off=%d seq=%d stream=%s\n", simrt.SimNow(), simrt.Steps(), e.SourceID, e.Offset, e.SeqID, pipeline.VerifEventStream(e))
 	}
 	w.r.commitsSeen++
+	if n := e.Root.Dig("id"); n != nil {
+		if l := w.r.lines[n.AsInt()]; l != nil {
+			l.committed++
+		}
+	}
 	w.inner.Commit(e)
 }
 
